@@ -91,8 +91,9 @@ def run(ctx):
     print_rule(ctx, syn)
     sep_rule(ctx, syn)
     stopset_rule(ctx, syn)
-    from c09rt import roundtrip_rule
+    from c09rt import roundtrip_rule, query_roundtrip_rule
     roundtrip_rule(ctx, syn)
+    query_roundtrip_rule(ctx, syn)
     lossless_rule(ctx, syn)
     verbatim_rule(ctx, syn)
 
